@@ -338,6 +338,8 @@ def case_variants(d: bytes):
         return w[:1].upper() + w[1:].lower() if cnt[0] % 2 == 0 else w.lower()
 
     vs.append(per_label(alt))
+    cnt[0] = 1
+    vs.append(per_label(alt))  # the other parity
     out = []
     for v in vs:
         if v not in out:
@@ -366,11 +368,11 @@ def run_histories(ctx, shard, nshards, seed, budget):
             super().__init__()
             self.steps = []
 
-        @rule(i=st.integers(0, len(pool) - 1), v=st.integers(0, 5), k=st.sampled_from([None, None, 1, 2, 10]))
+        @rule(i=st.integers(0, len(pool) - 1), v=st.integers(0, 6), k=st.sampled_from([None, None, 1, 2, 10]))
         def scan_shared(self, i, v, k):
             self.steps.append({"op": "shared", "doc": pick(i, v), "k": k})
 
-        @rule(i=st.integers(0, len(pool) - 1), v=st.integers(0, 5), k=st.sampled_from([None, 2]))
+        @rule(i=st.integers(0, len(pool) - 1), v=st.integers(0, 6), k=st.sampled_from([None, 2]))
         def scan_fresh(self, i, v, k):
             self.steps.append({"op": "fresh", "doc": pick(i, v), "k": k})
 
@@ -378,7 +380,7 @@ def run_histories(ctx, shard, nshards, seed, budget):
         def rebuild_registry(self):
             self.steps.append({"op": "rebuild"})
 
-        @rule(i=st.integers(0, len(pool) - 1), v=st.integers(0, 5))
+        @rule(i=st.integers(0, len(pool) - 1), v=st.integers(0, 6))
         def scan_via_cli(self, i, v):
             self.steps.append({"op": "cli", "doc": pick(i, v)})
 
